@@ -46,8 +46,59 @@ fn quad_coq(q: &[u64; 4]) -> String {
     format!("({}, {}, {}, {})%Z", q[0], q[1], q[2], q[3])
 }
 
-pub fn run_case(master: u64, idx: u64, _profile: &str) -> MetaCase {
+/// termination criteria lists through `termination::verif_compile`
+fn term_case(r: &mut Prng, idx: u64) -> MetaCase {
+    use cambrian::termination::{verif_compile, TerminationCriterion as TC};
+    use std::time::Duration;
+    let n = r.below(6);
+    let mut crits: Vec<TC> = Vec::new();
+    let mut coq: Vec<String> = Vec::new();
+    for _ in 0..n {
+        let kinds = if r.chance(1, 3) { 2 } else { 4 };
+        match r.below(kinds) {
+            0 => {
+                let k = *r.pick(&[0usize, 1, 5, 1000]);
+                crits.push(TC::NumObjFuncEval(k));
+                coq.push(format!("KNum {}%N", k));
+            }
+            1 => {
+                let ms = *r.pick(&[0u64, 700, 3_600_000]);
+                crits.push(TC::TerminateAfter(Duration::from_millis(ms)));
+                coq.push(format!("KAfter {}%N", ms));
+            }
+            2 => {
+                let t = *r.pick(&[0.0f64, -1.5, 1e300]);
+                crits.push(TC::TargetObjFuncVal(t));
+                coq.push(format!("KTarget {}%Z", t.to_bits()));
+            }
+            _ => {
+                crits.push(TC::Signal);
+                coq.push("KSignal".to_string());
+            }
+        }
+    }
+    let res = verif_compile(crits);
+    let res_coq = match &res {
+        Ok((a, b, c, d)) => format!(
+            "(Some (mkComp {} {} {} {}))",
+            a.map(|x| format!("(Some {}%N)", x)).unwrap_or("None".into()),
+            b.map(|x| format!("(Some {}%Z)", x.to_bits())).unwrap_or("None".into()),
+            c.map(|x| format!("(Some {}%N)", x.as_millis())).unwrap_or("None".into()),
+            if *d { "true" } else { "false" }
+        ),
+        Err(_) => "None".to_string(),
+    };
+    MetaCase {
+        coq: format!("Definition m{} : meta_obs := MTerm {} [{}] {}.\n", idx, idx, coq.join("; "), res_coq),
+        json: serde_json::json!({"stream": "meta", "idx": idx, "kind": "termination", "criteria": coq, "result": format!("{:?}", res.map_err(|e| e.to_string()))}),
+    }
+}
+
+pub fn run_case(master: u64, idx: u64, profile: &str) -> MetaCase {
     let mut r = Prng::new(master ^ idx.wrapping_mul(0xA24BAED4963EE407)).fork(0x3E7A);
+    if profile == "term" {
+        return term_case(&mut r, idx);
+    }
     if r.chance(2, 3) {
         // meta_adapt: many RNG states for one input; keep the first result and the extremes
         let expl = r.chance(1, 4);
